@@ -24,7 +24,7 @@ GROUPS = {
              'sin_hi', 'cos_hi', 'log10', 'sinpi', 'asinh', 'op_pow_rr', 'cos_sin'],
     'bern': ['bernoulli', 'bernfrac', 'bernpoly', 'zeta_int', 'gamma', 'loggamma', 'psi', 'harmonic', 'polygamma', 'tan', 'loggamma_big',
              'eulerpoly', 'zeta', 'siegeltheta'],
-    'gamma': ['gamma', 'gamma_big', 'gamma_int', 'loggamma', 'loggamma_big', 'rgamma', 'factorial', 'factorial_int', 'factorial_big',
+    'gamma': ['gamma', 'gamma_halfint_hi', 'rgamma_halfint_hi', 'gamma_big', 'loggamma_halfint_hi', 'factorial_halfint_hi', 'gamma_int', 'loggamma', 'loggamma_big', 'rgamma', 'factorial', 'factorial_int', 'factorial_big',
               'psi', 'beta', 'binomial', 'rf', 'gammaprod', 'superfac', 'fac2', 'binomial_int', 'gamma_vhi', 'gamma_vhi', 'rgamma_vhi'],
     'zeta': ['zeta', 'zeta_int', 'hurwitz', 'zeta_rs', 'altzeta', 'siegelz', 'primezeta', 'stieltjes', 'zetazero', 'grampoint',
              'riemannr', 'polylog', 'dirichlet', 'nzeros', 'backlunds', 'zeta_rs_hi', 'siegelz_hi'],
@@ -297,7 +297,7 @@ def _judge(res, mode, seed_base):
                 return None
             # high-precision reference: 2p+64 bits (p+200 is as good for judging p-bit values and cheaper for large p)
             return refs.pristine_eval(step, min(2 * p + 64, p + 200), mode=mode, setup=step.get('ref_setup'), seed_base=seed_base)
-        verdict, detail = compare.compare(h, f, get_R, pp, t, exact)
+        verdict, detail = compare.compare(h, f, get_R, pp, max(t, 12) if actor == 'fp' else t, exact, direct=(actor == 'fp'))
         bump('judged')
         bump(verdict)
         if r['after_abort']:
@@ -502,6 +502,10 @@ class _Gen(object):
         flavour = r.choice(['random', 'bucket', 'bucket', 'window', 'near'])
         self.cfg['ladder_flavour'] = flavour
         base = pick_prec(r, hi)
+        if e.key.endswith('_hi'):
+            # entries that exist for a high-precision path (series thresholds, the tables behind gamma at 400+ bits)
+            hi = e.maxprec
+            base = max(1, min(hi, r.choice(ELEM_PRECS) + r.randint(-2, 2)))
         if flavour == 'bucket':
             # two or three precisions of one 32-bit bucket, far enough apart for a reuse to show
             b = (base // 32) * 32
